@@ -4,7 +4,7 @@ Implementation: get_functions()['DATE'|'YEAR'|'MONTH'|'DAY'|'WEEKDAY'|'TIME'|'HO
 'DEC2BIN'...|'ROMAN'|'ARABIC'].  Model: XL.Model.Cal / XL.Model.Eng through xldriver.
 Independent oracle for dates: Python's own datetime (serial > 60 is 1899-12-30 + serial).
 """
-import datetime, json, os, multiprocessing
+import datetime, math, json, os, multiprocessing
 import numpy as np
 import common
 from common import Run, model
@@ -115,6 +115,21 @@ def check(run):
         got = (call('YEAR', n), call('MONTH', n), call('DAY', n))
         if got != exp:
             run.violation('special serial %d shows %r, expected %r' % (n, got, exp), {'op': 'date', 'serial': n})
+    # a serial with a time of day shows the date of its whole day (the fictitious 29 Feb 1900 and day 0 included)
+    fr_serials = [0, 1, 2, 58, 59, 60, 61, 62, 366, 367, 36585, MAXS - 1, MAXS] + [rnd.randint(0, MAXS) for _ in range(300 if quick else 3000)]
+    for n in fr_serials:
+        for fr in (0.5, 0.25, 0.999988426, 1 / 86400, rnd.random()):
+            x = n + fr
+            if math.floor(x) != n:
+                continue
+            got = (call('YEAR', x), call('MONTH', x), call('DAY', x))
+            whole = (call('YEAR', n), call('MONTH', n), call('DAY', n))
+            run.count(3, ('date-frac', n, fr), True, 'date-with-time-of-day')
+            case = {'op': 'date', 'serial': repr(x), 'ymd': [show(v) for v in got], 'whole_day': [show(v) for v in whole]}
+            if got != whole:
+                run.violation('YEAR/MONTH/DAY of a serial with a time of day is not the date of its day', case)
+            ask('int2date %d' % n, lambda a, case=case, got=got: a == '%s,%s,%s' % got or run.disagree(
+                'int2date (floor of the serial): model %s' % a, case))
     for n in (-1, -5, MAXS + 1, MAXS + 1000, -10 ** 6):
         for f in ('YEAR', 'MONTH', 'DAY'):
             r = call(f, n)
